@@ -119,6 +119,8 @@ def _val(S, c, k):
 cu_put = Contract(
     f"{PC}::CacheUV.put", params={"self": CacheUV, "key": TObj, "value": TObj, "duration": TOpt(TReal)},
     defaults={"duration": None}, returns=None, trusted=True, pure=False, modifies=("self",),
+    requires=lambda S, a: {"HybridCache.put takes the computation time, the other containers' put does not (TypeError "
+                           "otherwise)": a.self.is_hybrid == S.not_(S.is_none(a.duration))},
     ensures=lambda S, a, r, post: ({
         "the key is resident with the value just put (C14)": S.and_(
             _has(S, post.self, a.key), lambda: S.eq(_val(S, post.self, a.key), a.value)),
@@ -243,3 +245,229 @@ def mpm_gen(rng, tier):
             if rng.random() < 0.6:
                 store[k] = Arr(f"e{i}", rng.randint(0, 1), rng.random() < 0.5) if rng.random() < 0.6 else Other(f"e{i}")
         yield {"store": store, "persist_memory": rng.random() < 0.6}
+
+
+# ---- _check_inputs (C12: a nested list given for an input of rank > 1 is rejected before anything runs) -------------------
+from pyvc.types import TSeq  # noqa: E402
+
+# an input value: only whether it is a list/tuple matters here
+InputValV = TRec("InputValV", {"vid": TObj, "is_list": TBool, "is_tuple": TBool})
+InputValV.class_tests = {"list": "is_list", "tuple": "is_tuple"}
+PipelineDimsV = TRec("PipelineDimsV", {"mapspec_dimensions": TDict(TStr, TInt)})
+DInputs = TDict(TStr, InputValV)
+
+
+def _ci_bad(S, a, name):
+    dims = a.pipeline.mapspec_dimensions
+    v = a.inputs[name]
+    listlike = (lambda: S.or_(v.is_list, v.is_tuple)) if S.symbolic else (lambda: isinstance(v, (list, tuple)))
+    return S.and_(S.has(dims, name), lambda: dims[name] > 1, listlike)
+
+
+check_inputs = Contract(
+    f"{RI}::_check_inputs", params={"pipeline": PipelineDimsV, "inputs": DInputs}, returns=None,
+    raises=[("ValueError", lambda S, a: S.exists_in_dict(a.inputs, lambda name: _ci_bad(S, a, name)))],
+    loops={0: LoopSpec(lambda S, a, v, k: {
+        "no offending input so far": S.forall(0, k, lambda i: S.not_(_ci_bad(S, a, v._okey(i)))),
+    })},
+    note="raises exactly when some input that the MapSpecs index with more than one axis is given as a list or tuple "
+         "(those must be numpy arrays)",
+)
+CHECK_INPUTS = [check_inputs]
+
+
+def ci_gen(rng, tier):
+    import numpy as np
+    from types import SimpleNamespace
+    names = ["x", "y", "z"]
+    for _ in range(300 if tier == "quick" else 3000):
+        dims = {k: rng.randint(0, 3) for k in names if rng.random() < 0.7}
+        inputs = {}
+        for k in names + ["w"]:
+            if rng.random() < 0.6:
+                inputs[k] = rng.choice([[1, 2], (1, 2), np.arange(2), 3, [[1], [2]], np.zeros((2, 2))])
+        yield {"pipeline": SimpleNamespace(mapspec_dimensions=dims), "inputs": inputs}
+
+
+InputValV.from_py = lambda o: {"vid": repr(o), "is_list": isinstance(o, list), "is_tuple": isinstance(o, tuple)}
+
+
+# ---- _construct_internal_shapes (C01/C04/C05: the sizes of function-supplied axes that a run records) ----------------------
+from .misc import names_of  # noqa: E402
+
+DShapes = TDict(TOut, TObj)
+PipeFuncISV = TRec("PipeFuncISV", {"output_name": TOut, "internal_shape": TOpt(TObj)})
+PipelineISV = TRec("PipelineISV", {"functions": TSeq(PipeFuncISV)})
+
+
+def _has0(S, a, key):
+    return S.and_(S.not_(S.is_none(a.internal_shapes)), lambda: S.has(S.some(a.internal_shapes), key))
+
+
+def _elig(S, a, i):
+    """Function i contributes: it declares an internal shape and the caller gave none under its output name."""
+    f = a.pipeline.functions[i]
+    return S.and_(S.not_(S.is_none(f.internal_shape)), lambda: S.not_(_has0(S, a, f.output_name)))
+
+
+def _n_names(S, out):
+    return S.ite(S.is_tag(out, "str"), lambda: 1, lambda: S.len(S.untag(out, "tuple")))
+
+
+def _covered(S, a, key, t):
+    fs = a.pipeline.functions
+    return S.and_(S.is_tag(key, "str"), lambda: S.exists(0, t, lambda i: S.and_(
+        _elig(S, a, i), lambda: names_of(S, fs[i].output_name)(S.untag(key, "str")))))
+
+
+def _name_at(S, out, j):
+    return S.ite(S.is_tag(out, "str"), lambda: S.untag(out, "str"), lambda: S.untag(out, "tuple")[j])
+
+
+def _writes_something(S, a, t):
+    fs = a.pipeline.functions
+    return S.exists(0, t, lambda i: S.and_(_elig(S, a, i), lambda: _n_names(S, fs[i].output_name) >= 1))
+
+
+def _size0(S, a):
+    return S.ite(S.is_none(a.internal_shapes), lambda: 0, lambda: S.len(S.some(a.internal_shapes)))
+
+
+def _contents(S, a, D, t, extra=None):
+    """D holds: the caller's entries, overridden/extended by the entries of the contributing functions among the first t
+    (`extra(key)`: further keys already written - the inner loop's progress)."""
+    fs = a.pipeline.functions
+    cov = (lambda key: S.or_(_covered(S, a, key, t), extra[0](key))) if extra else (lambda key: _covered(S, a, key, t))
+    dom = list(D) + (list(a.internal_shapes) if (not S.symbolic and a.internal_shapes is not None) else []) if not S.symbolic else ()
+    out = {
+        "names": S.forall_key(TOut, lambda key: S.has(D, key) == S.or_(_has0(S, a, key), cov(key)), domain=dom),
+        "from the functions": S.forall_key(TOut, lambda key: S.forall(0, t, lambda i: S.implies(
+            S.and_(_elig(S, a, i), lambda: S.is_tag(key, "str"), lambda: names_of(S, fs[i].output_name)(S.untag(key, "str"))),
+            lambda: S.eq(D[key], S.some(fs[i].internal_shape)))), domain=dom),
+        "given entries kept": S.forall_key(TOut, lambda key: S.implies(
+            S.and_(_has0(S, a, key), lambda: S.not_(cov(key))),
+            lambda: S.eq(D[key], S.some(a.internal_shapes)[key])), domain=dom),
+    }
+    return out
+
+
+def _cur(S, v):
+    D = v.internal_shapes
+    if S.symbolic and isinstance(D.ty, TOpt):
+        D = S.some(D)
+    return D
+
+
+def _cis_ensures(S, a, r, post):
+    n = S.len(a.pipeline.functions)
+    out = {}
+    for name, cl in ({} if (not S.symbolic and r is None) else _contents(S, a, S.some(r), n)).items():
+        out[f"recorded: {name}"] = S.implies(S.not_(S.is_none(r)), (lambda cl=cl: cl))
+    out["None exactly when there is nothing to record"] = S.iff(
+        S.is_none(r), S.and_(_size0(S, a) == 0, lambda: S.not_(_writes_something(S, a, n))))
+    return out
+
+
+def _cis_outer(S, a, v, t):
+    D = _cur(S, v)
+    inv = dict(_contents(S, a, D, t))
+    inv["size"] = S.and_(S.len(D) >= _size0(S, a), S.implies(_writes_something(S, a, t), lambda: S.len(D) >= 1),
+                         S.implies(S.not_(_writes_something(S, a, t)), lambda: S.len(D) == _size0(S, a)))
+    return inv
+
+
+def _cis_hints(S, a, v, t):
+    """Proof structure of the outer step (end of iteration t)."""
+    fs = a.pipeline.functions
+    D = _cur(S, v)
+    in_t = lambda key: S.and_(S.is_tag(key, "str"), lambda: names_of(S, fs[t].output_name)(S.untag(key, "str")))  # noqa: E731
+    return {
+        "no earlier function wrote under this function's output name": S.not_(_covered(S, a, fs[t].output_name, t)),
+        "names of earlier contributing functions are not names of this one": S.forall_key(TOut, lambda key: S.forall(
+            0, t, lambda i: S.implies(S.and_(S.is_tag(key, "str"), lambda: names_of(S, fs[i].output_name)(S.untag(key, "str"))),
+                                      lambda: S.not_(in_t(key))))),
+        "this function's names carry its shape if it contributes": S.implies(_elig(S, a, t), lambda: S.forall_key(
+            TOut, lambda key: S.implies(in_t(key), lambda: S.eq(D[key], S.some(fs[t].internal_shape))))),
+    }
+
+
+def _unopt(S, D):
+    if S.symbolic and isinstance(D.ty, TOpt):
+        D = S.some(D)
+    return D
+
+
+def _cis_inner(S, a, v, j):
+    """Inside one iteration of the outer loop (function f contributes): relative to the dict at the entry of this
+    loop, the first j names of f are written with f's shape, nothing else changed."""
+    D, D_in, f = _cur(S, v), _unopt(S, v._entry.internal_shapes), v.f
+    done = lambda key: S.and_(S.is_tag(key, "str"), lambda: S.exists(0, j, lambda u: S.eq(v._at(u), S.untag(key, "str"))))  # noqa: E731
+    return {
+        "names": S.forall_key(TOut, lambda key: S.has(D, key) == S.or_(S.has(D_in, key), done(key))),
+        "written": S.forall(0, j, lambda u: S.eq(D[S.inject(TOut, "str", v._at(u))], S.some(f.internal_shape))),
+        "others unchanged": S.forall_key(TOut, lambda key: S.implies(S.and_(S.has(D_in, key), lambda: S.not_(done(key))),
+                                                                     lambda: S.eq(D[key], D_in[key]))),
+        "size": S.and_(S.len(D) >= S.len(D_in), S.implies(j >= 1, lambda: S.len(D) >= 1),
+                       S.implies(j == 0, lambda: S.len(D) == S.len(D_in))),
+    }
+
+
+def _owner(S, a, nm):
+    """Ghost witness of "output names are unique over the pipeline": the index of the function that produces a name."""
+    return S.uf("spec:name-owner", TInt, a.pipeline.functions, nm)
+
+
+def _conc_owner(fs, nm):
+    for i, f in enumerate(fs):
+        if nm == f.output_name or (isinstance(f.output_name, tuple) and nm in f.output_name):
+            return i
+    return -1
+
+
+from pyvc.spec import CONC_IMPL  # noqa: E402
+
+CONC_IMPL["spec:name-owner"] = _conc_owner
+
+
+def _cis_requires(S, a):
+    fs = a.pipeline.functions
+    n = S.len(fs)
+    return {
+        "output names are unique over the pipeline (validate_unique_output_names): every name has one producer":
+            S.forall(0, n, lambda i: S.and_(
+                S.implies(S.is_tag(fs[i].output_name, "str"), lambda: _owner(S, a, S.untag(fs[i].output_name, "str")) == i),
+                S.implies(S.is_tag(fs[i].output_name, "tuple"), lambda: S.forall(
+                    0, S.len(S.untag(fs[i].output_name, "tuple")),
+                    lambda p: _owner(S, a, S.untag(fs[i].output_name, "tuple")[p]) == i)))),
+    }
+
+
+construct_internal_shapes = Contract(
+    f"{RI}::_construct_internal_shapes", params={"internal_shapes": TOpt(DShapes), "pipeline": PipelineISV},
+    returns=TOpt(DShapes), modifies=("internal_shapes",), pure=False,
+    requires=_cis_requires, ensures=_cis_ensures, loops={0: LoopSpec(_cis_outer, hints=_cis_hints), 1: LoopSpec(_cis_inner)},
+    locals_={"internal_shapes": DShapes},
+    note="the recorded sizes: what the caller gave, plus - for every function that declares an internal shape and whose "
+         "output name the caller did not list - that shape under each of the function's output names",
+)
+from .misc import at_least_tuple as _alt  # noqa: E402
+INTERNAL_SHAPES = [_alt, construct_internal_shapes]
+
+
+def cis_gen(rng, tier):
+    from types import SimpleNamespace
+    pool = ["a", "b", "c", "d", "e"]
+    for _ in range(400 if tier == "quick" else 4000):
+        names = rng.sample(pool, rng.randint(0, 5))
+        fs = []
+        while names:
+            if len(names) >= 2 and rng.random() < 0.4:
+                out = (names.pop(), names.pop())
+            else:
+                out = names.pop()
+            fs.append(SimpleNamespace(output_name=out, internal_shape=rng.choice([None, None, 3, (2,), (2, 3)])))
+        given = None
+        if rng.random() < 0.7:
+            keys = [k for k in pool if rng.random() < 0.3] + [f.output_name for f in fs if rng.random() < 0.3]
+            given = {k: rng.choice([1, (4,), (5, 6)]) for k in keys}
+        yield {"internal_shapes": given, "pipeline": SimpleNamespace(functions=fs)}
